@@ -23,7 +23,7 @@ import (
 func c03Pool(e *c03Env, typ string, base any) []any {
 	pubs := [][]byte{e.u0.Account().PublicKey().Bytes(), e.u1.Account().PublicKey().Bytes(), e.u2.Account().PublicKey().Bytes(),
 		e.node.Account().PublicKey().Bytes(), e.cand.Account().PublicKey().Bytes(), e.ir[0].PublicKey().Bytes(), synthKey(77)}
-	hashes := [][]byte{e.u0.ScriptHash().BytesBE(), e.u1.ScriptHash().BytesBE(), e.u2.ScriptHash().BytesBE(), e.h["container"].BytesBE(), e.h["balance"].BytesBE(), make([]byte, 20)}
+	hashes := [][]byte{e.u0.ScriptHash().BytesBE(), e.u1.ScriptHash().BytesBE(), e.u2.ScriptHash().BytesBE(), e.h["container"].BytesBE(), e.h["balance"].BytesBE(), make([]byte, 20), e.u1.ScriptHash().BytesBE()[:19], append(e.u2.ScriptHash().BytesBE(), 7)}
 	blobs := [][]byte{{}, e.blob.id, e.blob.value, e.blob2.id, e.blob2.value, mkEACL(e.blob2.id, 0, 2), ownerID(e.u0.ScriptHash()), ownerID(e.u1.ScriptHash()), detBytes("none", 32), make([]byte, 32), []byte("k"), []byte("id"),
 		mkEACL(e.blob.id, 0, 1), legacyInfo(e.node.Account().PublicKey().Bytes(), 1), legacyInfo(e.u1.Account().PublicKey().Bytes(), 2)}
 	var out []any
